@@ -131,7 +131,7 @@ def reduce_ref(ref):
         return split_ref[0]
 
     if is_import_ref(ref):
-        return ".".join(split_ref[:1])
+        return ".".join(split_ref[:2])
 
     return split_ref[0]
 
@@ -151,7 +151,7 @@ def action_ref_from_dependency_ref(dependency, left_or_right):
     if _is_action_ref(dependency, left_or_right):
         split_ref = dependency["compare"][left_or_right]["ref"].split(".")
         if is_import_ref(dependency["compare"][left_or_right]["ref"]):
-            return ".".join(split_ref[:1])
+            return ".".join(split_ref[:2])
 
         return split_ref[0]
 
